@@ -567,6 +567,7 @@ func checkLangID(lt langTable, id int, st *stats, rep reporter) {
 	}
 	got, ok := language.NewLangID(tag)
 	if !ok || int(got) != id {
+		st.c(fmt.Sprintf("langid:round trip FAILS for id %d %q -> (%d,%v) %q", id, tag, got, ok, got.Language()))
 		rep("C20/langid-roundtrip", fmt.Sprintf("LangID(%d).Language()=%q but NewLangID(%q)=(%d,%v) [whose tag is %q]", id, tag, tag, got, ok, got.Language()), w)
 		return
 	}
